@@ -253,28 +253,49 @@ def rule_r3(ck, prog, rule='C10.R3', cls='opentelemetry::context::ThreadLocalCon
     writes = [p for p in g.points if p.n is not None and p.n['k'] == 'call' and p.n.get('op') == '=' and p.n.get('obj') is not None and
               push.nodes[p.n['obj']]['k'] == 'subscript']
     resz = g.calls('Stack::Resize')
-    ok = len(incs) == 1 and len(writes) == 1 and len(resz) == 1
-    why = 'increment/slot write/Resize not found exactly once'
+    # Push stores into the first free slot and counts the frame exactly once. k(p) = how many increments of size_ have happened before
+    # point p (0 or 1 on every path): the slot index has to be size_ - k(write) (the old size), the growth guard has to say
+    # "old size reached the capacity" (size_ - k(guard) >= / == capacity_), and Resize - which keeps size_ - k_r frames - has to be
+    # called with k(call) == k_r. Both the count-then-store and the store-then-count form satisfy this.
+    def k_at(p):
+        if g.must_pass(p, incs):
+            return 1
+        if not any(p.id in g.reachable_from([q for (q, _l) in i_.succ]) for i_ in incs):
+            return 0
+        return None
+    ok = len(incs) >= 1 and len(writes) == 1 and len(resz) == 1
+    why = 'increment / slot write / Resize not found'
     if ok:
+        # exactly one increment on every path
+        once = g.exit.id not in g.reachable_from(g.entry, avoid=incs) and \
+            not any(b_.id in g.reachable_from([q for (q, _l) in a_.succ]) for a_ in incs for b_ in incs)
         w = writes[0]
         sub = push.nodes[w.n['obj']]
         lin = linear(g, rd, push, sub['index'], w.ctx)
-        ok = lin == {'this.size_': 1, '1': -1} and g.must_pass(w, incs)
-        why = 'slot index %s, increment before write: %s' % (fmt(lin), g.must_pass(w, incs))
+        kw = k_at(w)
+        ok = once and kw is not None and lin == ({'this.size_': 1, '1': -1} if kw == 1 else {'this.size_': 1})
+        why = 'one increment per path: %s; slot index %s with %s increment(s) before the write' % (once, fmt(lin), kw)
         if ok:
+            kc = k_at(resz[0])
+
             def grow_edge(a, b, lab):
                 if not lab or not isinstance(lab[0], int):
                     return False
                 rel = relation(g, rd, lab[1], lab[0], a.ctx, lab[2])
-                return rel == ('>=0', frozenset({('this.size_', 1), ('this.capacity_', -1), ('1', -1)}))
-            ok = g.must_pass_edge(resz[0], grow_edge)
-            # on the other edge (size <= capacity) no growth is needed; the write must not be reachable with size > capacity and no Resize
-            r = g.reachable_from(g.entry, avoid=resz, avoid_edges=lambda a, b, lab: bool(lab and isinstance(lab[0], int) and
-                                 relation(g, rd, lab[1], lab[0], a.ctx, lab[2]) == ('>=0', frozenset({('this.size_', -1), ('this.capacity_', 1)}))))
-            ok = ok and w.id not in r and resz[0].id in g.reachable_from(g.entry) and g.must_pass(resz[0], incs)
-            why = 'Resize guarded by size_ > capacity_ after the increment: %s' % ok
+                want = frozenset({('this.size_', 1), ('this.capacity_', -1)} | ({('1', -1)} if kc == 1 else set()))
+                return rel in (('>=0', want), ('==0', want), ('==0', frozenset((s_, -c_) for (s_, c_) in want)))
+            ok = kc is not None and g.must_pass_edge(resz[0], grow_edge)
+            # the write is not reachable around Resize except over the other outcome of that very guard
+            def no_grow_edge(a, b, lab):
+                if not lab or not isinstance(lab[0], int):
+                    return False
+                return grow_edge(a, b, (lab[0], lab[1], not lab[2]))
+            r = g.reachable_from(g.entry, avoid=resz, avoid_edges=no_grow_edge)
+            ok = ok and w.id not in r
+            why = 'Resize guarded by "old size reached capacity" with %s increment(s) before it: %s' % (kc, ok)
     ck.verdict(ok, rule, push, 'push-shape', writes[0].n if writes else None,
-               'size_++, grow when size_ > capacity_, write slot size_-1' if ok else 'Push does not increment, grow on size_ > capacity_ and write slot size_-1 (%s): frames are overwritten or written out of bounds' % why)
+               'one increment per path; first free slot written; grows exactly when the old size reached the capacity' if ok else
+               'Push does not count once, store into the first free slot and grow when the old size reached the capacity (%s): frames are overwritten or written out of bounds' % why)
     for name in ('Pop', 'Top'):
         sf = prog.function('ThreadLocalContextStorage::Stack::' + name)
         g = Graph(prog, sf, inline=None, sync_lambdas=False)
@@ -360,6 +381,7 @@ def rule_r3_resize_callers(ck, prog, rule='C10.R3'):
     rd = reaching_defs(g)
     loops = [n for n in rz.nodes if n['k'] == 'for']
     keeps_minus_one = False
+    k_r = None
     if loops:
         cond = comparison(rz, loops[0]['cnd'])
         if cond:
@@ -369,6 +391,9 @@ def rule_r3_resize_callers(ck, prog, rule='C10.R3'):
                     lin = linear(g, rd, rz, j, g.root_ctx)
                     if lin == {'this.size_': 1, '1': -1}:
                         keeps_minus_one = True
+                        k_r = 1
+                    elif lin == {'this.size_': 1}:
+                        k_r = 0
     cnt = 0
     for f in sorted(prog.funcs.values(), key=lambda x: x.key):
         calls = [n for n in f.nodes if n['k'] == 'call' and qmatch(n.get('c', ''), 'ThreadLocalContextStorage::Stack::Resize')]
@@ -382,8 +407,16 @@ def rule_r3_resize_callers(ck, prog, rule='C10.R3'):
         for c in calls:
             cnt += 1
             cp = fg.point_of.get((id(fg.root_ctx), c['i']))
-            if not keeps_minus_one:
-                ck.inconclusive(rule, f, 'resize-caller-counts-new-frame@%s' % f.name, c, 'number of frames Resize keeps not recognised as size_-1')
+            if k_r is None:
+                ck.inconclusive(rule, f, 'resize-caller-counts-new-frame@%s' % f.name, c, 'number of frames Resize keeps not recognised as size_ or size_-1')
+                continue
+            if k_r == 0:
+                # Resize keeps size_ frames: size_ has to be the number of live frames at the call (no pending increment, and no
+                # decrement whose frame is still stored is irrelevant here: fewer frames than stored are never kept)
+                ok = cp is not None and not any(cp.id in fg.reachable_from([q for (q, _l) in i.succ]) for i in incs)
+                ck.verdict(ok, rule, f, 'resize-caller-counts-new-frame@%s' % f.name, c,
+                           'Resize (keeps size_ frames) is called where size_ is the number of stored frames' if ok else
+                           'Resize keeps size_ frames, but %s calls it after having counted a frame that is not stored yet: an uninitialised slot is copied / the count is off by one' % f.name)
                 continue
             ok = cp is not None and bool(incs) and fg.must_pass(cp, incs) and \
                 not any(cp.id in fg.reachable_from([q for (q, _l) in d.succ]) and any(d.id in fg.reachable_from([q for (q, _l) in i.succ]) for i in incs) for d in decs) and \
